@@ -40,6 +40,9 @@ PROJECTS = {
                           "xb.py": "import xa\nprint(xa.shared, xa.f(2))\n"},
                 "prefs": {"ignored_resources": ["xold", "xgen//*_pb2.py", ".ropeproject"]}, "sibling": {}},
     "broken": {"files": {"xa.py": XA, "xb.py": XB, "xbroken.py": "import xa\ndef oops(:\n    return xa.f(1)\n"}, "prefs": {}, "sibling": {}},
+    # a symbolic link inside the project whose target lies in a sibling directory named like the project root plus a suffix
+    "symlinked": {"files": {"xa.py": XA, "xb.py": XB}, "prefs": {}, "sibling_name": "proj_shared",
+                  "sibling": {"common.py": "import xa\nfrom xa import f, C\n\nz = xa.f(3) + f(4) + C().m(1) + xa.v\n"}, "links": {"xlink.py": "common.py"}},
 }
 for _spec in PROJECTS.values():
     _spec["files"]["xdest"] = DIR
@@ -90,6 +93,22 @@ MODULE_KINDS = {
 }
 
 
+def prelude_move_into_ignored(p):
+    """warm the project's file list, then move xb.py into the ignored package xold through rope"""
+    p.get_files()
+    p.get_python_files()
+    p.do(move.create_move(p, p.get_file("xb.py")).get_changes(p.get_folder("xold")))
+
+
+def rename_f_in_xa(p, r):
+    src = p.get_file("xa.py").read()
+    return rename.Rename(p, p.get_file("xa.py"), src.index("def f") + 4).get_changes("zz_new")
+
+
+MODULE_KINDS["rename-after-a-module-moved-into-an-ignored-folder"] = rename_f_in_xa
+PRELUDES = {"rename-after-a-module-moved-into-an-ignored-folder": prelude_move_into_ignored}
+
+
 def full_snap(root, sibling):
     return (snap(root, mtime=True), snap(sibling, mtime=True) if os.path.isdir(sibling) else {})
 
@@ -97,7 +116,7 @@ def full_snap(root, sibling):
 class C09(Check):
     pid = "C09"
     level = "exploration"
-    rule = ("cases = (project in {plain, external sibling folder on python_path, ignored resources (plain name and `//` pattern) "
+    rule = ("cases = (project in {plain, symbolic link to a file in a sibling directory, external sibling folder on python_path, ignored resources (plain name and `//` pattern) "
             "imported by a normal module, module with a syntax error}, module, refactoring kind in 16 offset-based + 5 module-based "
             "kinds, identifier token offset (every token of every non-ignored module), resources in {None, [this file], [other file]}); "
             "evaluations = one get_changes (+ do when it succeeds) per case with full snapshots of the project root and the sibling "
@@ -138,7 +157,7 @@ class C09(Check):
         spec = PROJECTS[case["project"]]
         base = self.scratch.new()
         root = os.path.join(base, "proj")
-        sibling = os.path.join(base, "xext")
+        sibling = os.path.join(base, spec.get("sibling_name", "xext"))
         os.mkdir(root)
         materialise(root, {p: (s if s == DIR else s.encode()) for p, s in spec["files"].items()})
         if spec["sibling"]:
@@ -147,6 +166,8 @@ class C09(Check):
         for d, ds, fs in os.walk(base):
             for n in fs:
                 os.utime(os.path.join(d, n), (1_000_000_000, 1_000_000_000))
+        for lname, target in spec.get("links", {}).items():
+            os.symlink(os.path.join(sibling, target), os.path.join(root, lname))
         prefs = dict(spec["prefs"])
         if "python_path" in prefs:
             prefs["python_path"] = [sibling]
@@ -164,6 +185,11 @@ class C09(Check):
         try:
             r = project.get_file(case["path"])
             resv = {"none": None, "self": [r], "other": [project.get_file("xb.py" if case["path"] != "xb.py" else "xa.py")]}[case["res"]]
+            if case["kind"] in PRELUDES:
+                if case["project"] != "ignored" or case["path"] != "xa.py":
+                    res["out"]["not-applicable"] = 1
+                    return res
+                PRELUDES[case["kind"]](project)
             before = full_snap(root, sibling)
             changes = None
             try:
